@@ -210,6 +210,7 @@ def main():
         cases = json.load(open(os.path.join(outdir, "cases.json")))
         res, wf = parse_out(outdir)
         failures, kinds, samples, distinct = [], {}, [], set()
+        drift = []
         n_wf = 0
         for i, c in enumerate(cases):
             key = c["op"] + ":" + c["kind"]
@@ -221,7 +222,11 @@ def main():
                                  "case": c})
                 continue
             why = compare(c, res[i])
-            if why:
+            if why and wf.get(i) != "true":
+                # malformed input (duplicate index symbol / pool mentioning an index): no theorem speaks
+                # about it and it is outside the property's quantifier; recorded, not a violation
+                drift.append(f"{c['text']}: {why}"[:400])
+            elif why:
                 c2 = dict(c)
                 c2["model_output"] = res[i]
                 failures.append({"signature": "model_mismatch_" + c["op"],
@@ -230,7 +235,8 @@ def main():
             elif len(samples) < 6 and c["op"] not in [s["op"] for s in samples]:
                 samples.append({"op": c["op"], "expr": c["text"], "params": str(c["params"])[:120]})
         kinds["within_theorem_hypothesis_wf"] = n_wf
-        print(json.dumps({"evaluations": len(cases), "distinct": len(distinct), "samples": samples,
+        kinds["model_drift_outside_hypothesis"] = len(drift)
+        print(json.dumps({"drift": drift[:3], "evaluations": len(cases), "distinct": len(distinct), "samples": samples,
                           "kinds": kinds, "failures": failures[:20]}))
         return
     raise SystemExit(__doc__)
